@@ -311,6 +311,18 @@ class SStr:
                 out.append(Rep(SStr(p.base)._map_case(which).pieces, p.count))
         return SStr(out)
 
+    def case_op(self, which: str) -> "SStr":
+        """swapcase / title / capitalize / casefold: exact on literals, an opaque operation on atoms."""
+        out: list[Any] = []
+        for p in self.pieces:
+            if isinstance(p, str):
+                out.append(getattr(p, which)())
+            elif isinstance(p, Atom):
+                out.append(Atom(p.name, excludes=p.excludes, nonempty=p.nonempty, ops=p.ops + (which,)))
+            else:
+                raise AnalysisError(f"{which} over a repeated piece")
+        return SStr(out)
+
     def upper(self) -> "SStr":
         return self._map_case("upper")
 
